@@ -55,9 +55,15 @@ def vol_accounting(F, S):
     M = lambda f: ("mem", vi, f)
     S_, I_, pS, pI = M("stringTableLength"), M("indexTableLength"), M("paddedStringTableLength"), M("paddedIndexTableLength")
     # the name loop emits names[i].size() + 1 per file: the same quantity PrepareHeader accumulates into stringTableLength
-    loops = [nd for nd in wh.nodes if nd["k"] == "ForStmt"]
+    loops = [nd for nd in wh.nodes if nd["k"] in ("ForStmt", "CXXForRangeStmt")]
     if len(loops) != 1:
         raise AnalysisBroken("WriteHeader: expected one loop (names)")
+    range_var = None
+    if loops[0]["k"] == "CXXForRangeStmt":
+        d0 = wh.n(loops[0]["loopvar"])["decls"][0]
+        rt = wh.term(loops[0]["range"])
+        if rt[0] == "mem" and rt[2] == "names":
+            range_var = ("var", d0["n"], d0["d"])
     body = set(wh.subtree(loops[0]["body"]))
     calls = write_calls(wh, w)
     total = ({}, 0)
@@ -73,15 +79,21 @@ def vol_accounting(F, S):
         if a0[0] == "ctor" and (a0[1] or "").endswith("SectionHeader") and len(a0[2]) >= 2 and a0[2][0][0] == "global":
             hdr_lengths[a0[2][0][1].split("::")[-1]] = a0[2][1]
     # PrepareHeader's accumulation
+    from .through import closure
+    ph_all = closure(F, ph)
     acc = None
-    for nd in ph.nodes:
-        if nd["k"] == "CompoundAssignOperator" and nd.get("op") == "+=":
-            l = ph.term(ph.kids(nd["id"])[0])
-            if l[0] == "mem" and l[2] == "stringTableLength":
-                acc = ph.term(ph.kids(nd["id"])[1])
+    for f in ph_all:
+        for nd in f.nodes:
+            if nd["k"] == "CompoundAssignOperator" and nd.get("op") == "+=":
+                l = f.term(f.kids(nd["id"])[0])
+                if l[0] == "mem" and l[2] == "stringTableLength":
+                    acc = f.term(f.kids(nd["id"])[1])
     def shape(t):
-        # size(names[i]) + 1 irrespective of the object it hangs off
-        return t[0] == "op" and t[1] == "+" and t[3] == ("const", 1) and t[2][0] == "size" and t[2][1][0] == "idx" and t[2][1][1][0] == "mem" and t[2][1][1][2] == "names"
+        # size(names[i]) + 1 irrespective of the object it hangs off (or size(name) + 1 for `name` ranging over names)
+        if not (t[0] == "op" and t[1] == "+" and t[3] == ("const", 1) and t[2][0] == "size"):
+            return False
+        e = t[2][1]
+        return (e[0] == "idx" and e[1][0] == "mem" and e[1][2] == "names") or (range_var is not None and e == range_var)
     inst = VOL + "#names==stringTableLength"
     req = "the bytes emitted per name (size + 1) are what PrepareHeader accumulates into stringTableLength, over the same 0..fileCount() range"
     if name_term is not None and acc is not None and shape(name_term) and shape(acc):
@@ -109,13 +121,34 @@ def vol_accounting(F, S):
         else:
             out.append(bad("R-ACCT", inst, wh.loc(wh.body), wh.qn, what, "recorded length is %s" % (fmt_term(got) if got is not None else "missing")))
     # padding shapes and first offset in PrepareHeader
-    stores = {}
-    for nd in ph.nodes:
-        if is_store(nd) and nd.get("op") == "=":
-            l = ph.term(ph.kids(nd["id"])[0])
-            if l[0] == "mem":
-                stores.setdefault(l[2], []).append((nd, ph.term(ph.kids(nd["id"])[1])))
+    # stores of PrepareHeader and of the helpers it is split into, with each helper's CreateVolumeInfo parameter read as
+    # PrepareHeader's own (so the terms compare)
     pv = ("var", ph.params[0]["n"], ph.params[0]["d"])
+    from .flow import substitute as _subst
+
+    def rr(f, t):
+        if f.key == ph.key:
+            return t
+        m = {("var", p["n"], p["d"]): pv for p in f.params if "CreateVolumeInfo" in (p.get("ct") or "")}
+        return _subst(t, m) if m else t
+    stores = {}
+    lvals = {}
+    locals_init = {}
+    local_stores = []
+    for f in ph_all:
+        for nd in f.nodes:
+            if is_store(nd) and nd.get("op") == "=":
+                l = rr(f, f.term(f.kids(nd["id"])[0]))
+                v = rr(f, f.term(f.kids(nd["id"])[1]))
+                if l[0] == "mem":
+                    stores.setdefault(l[2], []).append((nd, v))
+                    lvals[id(nd)] = l
+                elif l[0] == "var":
+                    local_stores.append((l, v))
+            elif nd["k"] == "DeclStmt":
+                for d in nd.get("decls", []):
+                    if "init" in d and "d" in d:
+                        locals_init[("var", d["n"], d["d"])] = rr(f, f.term(d["init"]))
     PM = lambda f: ("mem", pv, f)
     def r4(t, k):
         return t == ("op", "&", ("op", "+", k[0], ("const", k[1])), ("const", -4))
@@ -135,30 +168,26 @@ def vol_accounting(F, S):
     inst = VOL + "::PrepareHeader#first-offset"
     req = "the first block offset equals the header bytes emitted (pS + pI + 32)"
     want0 = add(add(linear(PM("paddedStringTableLength")), linear(PM("paddedIndexTableLength"))), ({}, 32))
-    first = [t for (nd, t) in offs if "('const', 0)" in repr(ph.term(ph.kids(nd["id"])[0]))]
+    first = [t for (nd, t) in offs if "('const', 0)" in repr(lvals[id(nd)])]
     f0 = None
     if first:
         f0 = first[0]
         # the stored value is the 64-bit local last assigned before it: take that local's initialiser
-        if f0[0] == "var":
-            for nd in ph.nodes:
-                if nd["k"] == "DeclStmt":
-                    for d in nd.get("decls", []):
-                        if ("var", d.get("n"), d.get("d")) == f0 and "init" in d:
-                            f0 = ph.term(d["init"])
+        if f0[0] == "var" and f0 in locals_init:
+            f0 = locals_init[f0]
     if f0 is not None and same(linear(f0), want0):
         out.append(ok("R-ACCT", inst, ph.loc(ph.body), ph.qn, req, fmt_term(f0)))
     else:
         out.append(bad("R-ACCT", inst, ph.loc(ph.body), ph.qn, req, "first offset is %s" % (fmt_term(f0) if f0 is not None else "?")))
     # block step: next = (prev.offset + prev.size + 8 + 3) & ~3 ; emitted per block: 8 + size + ((-size) & 3)
     step = None
-    for nd in ph.nodes:
-        # the running offset local is whichever local the dataBlockOffset stores take their value from
-        running = {t for (_n, t) in offs if t[0] == "var"}
-        if is_store(nd) and nd.get("op") == "=" and ph.term(ph.kids(nd["id"])[0]) in running:
-            step = ph.term(ph.kids(nd["id"])[1])
+    # the running offset local is whichever local the dataBlockOffset stores take their value from
+    running = {t for (_n, t) in offs if t[0] == "var"}
+    for (l, v) in local_stores:
+        if l in running:
+            step = v
     if step is None:
-        later = [t for (nd, t) in offs if "('const', 0)" not in repr(ph.term(ph.kids(nd["id"])[0]))]
+        later = [t for (nd, t) in offs if "('const', 0)" not in repr(lvals[id(nd)])]
         step = later[0] if later else None
     inst = VOL + "::PrepareHeader#block-step"
     req = "next block offset = (previous offset + previous size + 8 + 3) & ~3, matching the 8-byte header + size + ((-size) & 3) the writer emits"
